@@ -19,7 +19,8 @@ def cases(ctx):
     rnd = random.Random(ctx.seed)
     q = ctx.quick
     vals = [v for v in value_lattice(rnd)]
-    vals += [("ObjectIdentifier", o) for o in oid_lattice(rnd)[:20]]
+    lattice = oid_lattice(rnd)
+    vals += [("ObjectIdentifier", o) for o in lattice]        # incl. sub-identifiers up to 2^32-1 (five base-128 octets) and 128 arcs
     vals += [("NoSuchObject", None), ("NoSuchInstance", None), ("EndOfMibView", None), ("Null", None)]
     big = [("OctetString", bytes(rnd.randrange(256) for _ in range(n))) for n in ([65000] if q else [16383, 16384, 65000, 65400])]
     C = []
@@ -59,6 +60,14 @@ def cases(ctx):
         C.append(dict(proto=rnd.choice(PROTOS), values=[rnd.choice(vals) + (None,) for _ in range(n)], forms={}, form="count%d" % n))
     for r in REQIDS:
         C.append(dict(proto=rnd.choice(PROTOS), values=[rnd.choice(vals) + (None,)], forms={}, reqid=r, ei=rnd.choice([0, 0, 1, 2, 127, 128, 255, 2 ** 31 - 1]), form="reqid"))
+    # (c2) binding NAMES with sub-identifiers at every base-128 length boundary up to 2^32-1
+    for o in lattice:
+        if len(o) >= 3 and o[0] == 1:
+            C.append(dict(proto=rnd.choice(PROTOS), values=[rnd.choice(vals) + (None,)], oids=[o], forms={}, form="names"))
+    # (c3) SNMPv3 agents that announce a small msgMaxSize (what THEY can receive) and send responses larger than that
+    for mm in (484, 1472, 65507, 2 ** 31 - 1):
+        for n in (10, 600, 3000):
+            C.append(dict(proto=rnd.choice(PROTOS[2:]), values=[("OctetString", bytes(rnd.randrange(256) for _ in range(n)), None)], forms={}, form="msgmax", msgmax=mm))
     # (d) a few very long strings (three-octet long form)
     for v in big:
         C.append(dict(proto=rnd.choice(["v2c", "v3a_md5", "v3p_sha"]), values=[(v[0], v[1], None)], forms={}, form="big"))
@@ -84,7 +93,7 @@ def run(ctx):
     ctx.judge(T, verdicts, signature=sig, nontrivial=lambda tr, v: json.dumps([tr["scenario"], tr["events"][0].get("raw", tr["events"][0].get("inb"))]))
     ctx.rule = ("responses built by the reference encoder from the value lattice (every base/application type and the three exception markers at and around "
                 "every byte boundary, strings of length 0..65400, OIDs with sub-identifiers up to 2^32-1, binding lists of 0..40, request-id / error-index "
-                "values) in every definite length form (short, minimal long, long with 1..4 length octets applied to all TLVs at once and to one TLV class at "
+                "values, binding names with large sub-identifiers, v3 agents announcing msgMaxSize 484..2^31-1) in every definite length form (short, minimal long, long with 1..4 length octets applied to all TLVs at once and to one TLV class at "
                 "a time) fed to Client.multiget (single values also through get / getnext / walk, and through PyWrapper.get / multiget with the documented conversion of each type) over v1/v2c/v3 levels; TLC decodes the same bytes with Ber.tla and compares type and value with what the "
                 "caller received; the library's decode entry points re-encode PDU / scoped PDU / USM parameters / message and TLC compares contents")
     ctx.assumptions = ["integer contents octets are minimal (X.690 8.3.2); only length forms vary", "unsigned application types are sent as non-negative two's complement"]
